@@ -219,6 +219,85 @@ let block_alias buf o1 l1 o2 l2 verbose =
     call b [enc_size (rfind h s (arg g))]) huge3;
   finish b end
 
+(* ---------------------------------------------------------------- block G: huge sizes
+   The view has sz = 2^31-1 .. 2^32+2^31 zero bytes; it cannot be a byte list. The model is evaluated through the
+   locality theorems of coq/C18/Window.v: the size arithmetic by the extracted *_dims functions on sz (as N), the byte
+   comparisons on the window of the view that the query looks at (a short list of zeros):
+     compare / operators: compare_window, operators_window (|x|+1 bytes);  compare(pos,n,..): compare3/5_factor;
+     substr / remove_prefix / remove_suffix / copy / at: *_factor;  starts/ends_with: *_window;
+     forward searches from pos: find_shift etc. with o = min(pos, sz);  backward searches: rfind_shift etc. with
+     o = sz - 8 (conditional on the occurrence lying in the window; otherwise the driver prints -99). *)
+let zeros k = List.init k (fun _ -> N0)
+let g31 = 1 lsl 31 and g32 = 1 lsl 32
+let huge_sizes = [g31 - 1; g31; g31 + 1; g32 - 1; g32; g32 + 1; g32 + g31]
+
+let block_huge sz s verbose =
+  let b = { kind = 'G'; h = []; s; lh = string_of_int sz; ls = hex s; verbose; hm = 0; ncalls = 0; hits = 0 } in
+  let szn = n_of_int sz in
+  let ls = List.length s in
+  let allzero = List.for_all (fun c -> c = N0) s and haszero = List.exists (fun c -> c = N0) s in
+  let win l = zeros (min l (ls + 1)) in                          (* window of a sub-view of l zero bytes, for compare with s *)
+  let a' = win sz in
+  let rel a x = [enc_bool (op_eq a x); enc_bool (op_ne a x); enc_bool (op_lt a x); enc_bool (op_gt a x);
+                 enc_bool (op_le a x); enc_bool (op_ge a x)] in
+  let cs = of_cstr s in
+  let dims_cmp d (x : n list) = match d with
+    | Ok (_, l) -> [enc_sign (compare0 (zeros (min (int_of_n l) (List.length x + 1))) x)]
+    | _ -> [-2] in
+  call b [sz; sz; 0];
+  List.iter (fun pos -> call b (if at_throws szn (arg pos) then [-2] else [int_of_n (nthN (zeros 1) N0)])) [sz - 1; sz; -1];
+  call b [int_of_n (nthN (zeros 1) N0)];
+  call b [int_of_n (front (zeros 1))];
+  call b [int_of_n (back (zeros 1))];
+  call b [enc_sign (compare0 a' s)];
+  call b [enc_sign (compare0 s a')];
+  call b (rel a' s);
+  call b (rel s a');
+  call b [enc_sign (compare0 (zeros (min sz (List.length cs + 1))) cs)];
+  call b [enc_bool (starts_with (zeros ls) s)];
+  call b [enc_bool (ends_with (zeros ls) s)];
+  call b [enc_bool (starts_with_char (zeros 1) N0)];
+  call b [enc_bool (ends_with_char (zeros 1) N0)];
+  call b [enc_bool (ends_with_char (zeros 1) (n_of_int 0x61))];
+  List.iter (fun pos1 -> List.iter (fun n1 ->
+    if (pos1 <> -1 && pos1 <= sz) || n1 = 0 || n1 = -1 then
+      call b (dims_cmp (substr_dims szn (arg pos1) (arg n1)) s)) [0; 1; 3; g31; g32 + 1; -2; -1])
+    [0; 1; sz - 2; sz - 1; sz; sz + 1; -1];
+  call b (dims_cmp (substr_dims szn (arg 0) (arg (-1))) cs);
+  call b (dims_cmp (substr_dims szn (arg (sz - 1)) (arg (-1))) (of_ptr_n s (size s)));
+  List.iter (fun pos1 -> List.iter (fun n1 -> List.iter (fun pos2 -> List.iter (fun n2 ->
+    call b (match substr_dims szn (arg pos1) (arg n1), substr s (arg pos2) (arg n2) with
+            | (Ok _ as d), Ok w -> dims_cmp d w
+            | _ -> [-2])) [1; -1]) [0; 1]) [g31; -1]) [0; sz - 1];
+  List.iter (fun pos -> List.iter (fun k ->
+    if (pos <> -1 && pos <= sz) || k = 0 || k = -1 then
+      call b (match substr_dims szn (arg pos) (arg k) with Ok (o, l) -> [int_of_n l; int_of_n o] | _ -> [-2]))
+      [0; 1; g31; g32; sz - 1; sz; sz + 1; -2; -1]) [0; 1; sz - 1; sz; sz + 1; -1];
+  List.iter (fun k ->
+    (let (o, l) = remove_prefix_dims szn (arg k) in call b [int_of_n l; int_of_n o]);
+    (let (o, l) = remove_suffix_dims szn (arg k) in call b [int_of_n l; int_of_n o])) [0; 1; g31 - 1; sz - 1; sz];
+  List.iter (fun (k, pos) ->
+    let dots = List.init 4 (fun _ -> 0x2E) in
+    call b (match copy_dims szn (arg k) (arg pos) with
+            | Ok r -> let r = int_of_n r in r :: List.init 4 (fun i -> if i < r then 0 else 0x2E)
+            | _ -> -2 :: dots))
+    [(3, 0); (-1, sz - 2); (1, sz - 1); (-1, sz); (1, sz + 1); (g31, sz - 1)];
+  List.iter (fun pos ->
+    let o = if pos = -1 || pos > sz then sz else pos in
+    let h' = zeros (sz - o) and pos' = N.sub (arg pos) (n_of_int o) in
+    let back r = if r = npos then -1 else o + int_of_n r in
+    call b [back (find h' s pos')];
+    call b [back (find_first_of h' s pos')];
+    call b [back (find_first_not_of h' s pos')]) [sz - 3; sz - 1; sz; sz + 1; -1];
+  List.iter (fun pos ->
+    let o = sz - 8 in
+    let h' = zeros 8 and pos' = N.sub (arg pos) (n_of_int o) in
+    let back r = if r = npos then -99 else o + int_of_n r in
+    if allzero then call b [back (rfind h' s pos')];
+    if haszero then call b [back (find_last_of h' s pos')];
+    if not haszero then call b [back (find_last_not_of h' s pos')]) [-1; sz - 1; sz + 5];
+  finish b
+
 (* ---------------------------------------------------------------- enumeration *)
 let all_strings alpha maxlen =
   let rec go len level acc =
@@ -243,6 +322,9 @@ let () =
       | ["hay"; a] -> block_hay ?lh:(if a = "~" then Some "~" else None) (unhex a) verbose
       | ["pair"; a; b] ->
         block_pair ?lh:(if a = "~" then Some "~" else None) ?ls:(if b = "~" then Some "~" else None) (unhex a) (unhex b) verbose
+      | "huge" :: a :: rest ->
+        let only = match rest with [x] -> int_of_string x | _ -> 0 in
+        List.iter (fun sz -> if only = 0 || only = sz then block_huge sz (unhex a) verbose) huge_sizes
       | ["mid"; a; o; l] -> block_mid (unhex a) (int_of_string o) (int_of_string l) verbose
       | ["alias"; a; o1; l1; o2; l2] ->
         block_alias (unhex a) (int_of_string o1) (int_of_string l1) (int_of_string o2) (int_of_string l2) verbose
